@@ -236,7 +236,8 @@ v("C14", "position-from-visiting-order-inplace", LD, _C14_LOOP,
   "    sel_subdirs = dec_subdirs[subdir_slice]\n    if reverse:\n        sel_subdirs.reverse()\n    for k, (_time, subdir) in enumerate(sel_subdirs):\n",
   rules=["C14.R6"])
 v("C14", "files-not-reversed", LD, "        for dec_file in dec_files[slc] if not reverse else reversed(dec_files[slc]):", "        for dec_file in dec_files[slc]:", rules=["C14.R6"])
-v("C14", "reverse-skips-first", LD, "            ffill=(k == 0) and yielding_dmd_channel,", "            ffill=(k == 0) and yielding_dmd_channel and not reverse,", expect="analysis-error")
+v("C14", "reverse-skips-first", LD, "            ffill=(k == 0) and yielding_dmd_channel,", "            ffill=(k == 0) and yielding_dmd_channel and not reverse,", rules=["C14.R6"])
+v("C14", "reverse-extra-skip", LD, "        dec_files.sort()\n        if (\n            (k == 0)", "        dec_files.sort()\n        if reverse and k == 0 and len(dec_files) > 1:\n            dec_files.pop()\n        if (\n            (k == 0)", expect="analysis-error")
 v("C14", "twin-position-by-zip", LD, _C14_LOOP,
   "    sel_subdirs = dec_subdirs[subdir_slice]\n    for k, (_time, subdir) in (\n        enumerate(sel_subdirs)\n        if not reverse\n        else zip(range(len(sel_subdirs) - 1, -1, -1), reversed(sel_subdirs))\n    ):\n",
   expect="silent")
@@ -289,6 +290,7 @@ v("C10", "twin-fold-status-with-or", LIB, "\t\tif (H5Dclose (hdf5_data_object->d
 v("C12", "twin-sorted-key-int", DM, "                    groups.sort(key=int)\n                    last_sample = int(groups[-1])", "                    groups = sorted(groups, key=int)\n                    last_sample = int(groups[-1])", expect="silent")
 v("C08", "twin-comment-and-format", RF, "        key, z = data_dict.popitem()\n", "        key, z = data_dict.popitem()  # the single contiguous block\n", expect="silent")
 v("C02", "twin-reformatted-c", LIB, "\tif( access( finished_fullname, F_OK ) != -1 )\n", "\tif (access(finished_fullname, F_OK) != -1)\n", expect="silent")
+v("C14", "twin-drop-after-sort", LD, "        dec_files.sort()\n        if (\n            (k == 0)", "        dec_files.sort()\n        if len(dec_files) > 100000:\n            dec_files = dec_files[:]\n        if (\n            (k == 0)", expect="silent")
 v("C14", "twin-sort-call-style", LD, "    dec_subdirs.sort()\n    subdir_slice", "    dec_subdirs.sort()  # ascending time\n    subdir_slice", expect="silent")
 
 
